@@ -182,3 +182,34 @@ Proof.
   rewrite (new_amount_value _ Hf Hb). f_equal. rewrite Hv.
   apply Znearest_imp. exact Hrt.
 Qed.
+
+(* ---------- MulF64 ---------- *)
+(* float64(a) for any int64 a is the correctly rounded value of a *)
+Lemma of_Z_RN (a : Z) : (Z.abs a <= 2 ^ 63)%Z -> B2R (of_Z a) = RN (IZR a) /\ is_finite (of_Z a) = true.
+Proof.
+  intros Ha. unfold of_Z.
+  pose proof (binary_normalize_correct 53 1024 _ _ mode_NE a 0 false) as H. cbv zeta in H.
+  assert (Hx : F2R (Float radix2 a 0) = IZR a) by (unfold F2R; simpl; ring).
+  rewrite Hx in H. change (Generic_fmt.round radix2 _ _ ?x) with (RN x) in H.
+  rewrite Rlt_bool_true in H; [tauto|].
+  apply Rle_lt_trans with (bpow radix2 63); [|apply bpow_lt; lia].
+  apply abs_round_le_generic; [apply FLT_exp_valid; reflexivity|auto with typeclass_instances| |].
+  - apply generic_format_bpow. unfold FLT_exp. lia.
+  - rewrite <- abs_IZR. change (bpow radix2 63) with (IZR (2 ^ 63)). now apply IZR_le.
+Qed.
+
+(* Amount(a).MulF64(f) is the integer nearest (ties away) to the single product fl(float64(a) * f) *)
+Theorem mul_f64_nearest (a : Z) (f : float) :
+  (Z.abs a <= 2 ^ 63)%Z -> is_finite f = true ->
+  Rabs (RN (RN (IZR a) * B2R f)) < IZR (2 ^ 62) ->
+  nearest_away (RN (RN (IZR a) * B2R f)) (mul_f64 a f).
+Proof.
+  intros Ha Hf Hb. destruct (of_Z_RN a Ha) as [Hav Haf]. unfold mul_f64.
+  pose proof (Bmult_correct 53 1024 _ _ mode_NE (of_Z a) f) as H.
+  rewrite Hav in H. change (Generic_fmt.round radix2 _ _ ?x) with (RN x) in H.
+  rewrite Rlt_bool_true in H.
+  - destruct H as [H1 [H2 _]]. rewrite <- H1. apply round_nearest.
+    + now rewrite H2, Haf, Hf.
+    + now rewrite H1.
+  - eapply Rlt_trans; [exact Hb|]. rewrite bpow1024. now apply IZR_lt.
+Qed.
